@@ -395,13 +395,72 @@ def replay(ctx, case):
     return {"emit": res, "status": check_program(ctx, prog, built, res, inputs), "classes": canon_real(res, built).split(" | ")[-1]}
 
 
-THEOREMS = ["Ebv.C02.C02_const"]
-TRUSTED = []
-ASSUMPTIONS = []
-RULE = ""
-PROVED = []
-CORRESPONDED_NOT_PROVED = []
-LEVEL_TEXT = ""
-LEVEL_NOTE = ""
-TECHNIQUE = "Lean 4 structural induction + exact opcode-list correspondence"
+THEOREMS = [
+    "Ebv.F64.rne_err", "Ebv.F64.rne_sandwich", "Ebv.F64.flPos_spec", "Ebv.F64.decConstAbs_eq",
+    "Ebv.C02.C02_const", "Ebv.C02.C02_py_roundtrip", "Ebv.C02.product_below_witness",
+    "Ebv.GenFixed.floor_div_int", "Ebv.GenFixed.fNode_rep", "Ebv.GenFixed.fOp_rep", "Ebv.GenFixed.elabF_rep",
+    "Ebv.C02.fx_typing", "Ebv.C02.storeVal_rep", "Ebv.Gen.evalBV_eq_evalZ_fx",
+    "Ebv.C02.C02_ops_reg", "Ebv.C02.C02_ops_mem", "Ebv.C02.stmtsF_correct", "Ebv.C02.C02_partial", "Ebv.C02.divOkB_sound",
+    "Ebv.C02.C02_full_refuted", "Ebv.C02.divmod_negative_mul_refuted", "Ebv.C02.divmod_negative_store_refuted",
+    "Ebv.C02.fixed_to_short_div32_refuted",
+]
+TRUSTED = ["hand-written models Ebv.GenFixed (FIXED_BASE insertion of the operator overloads, Constant.__imul__ folding, store "
+           "scaling, x registers/variables) on top of C01's Ebv.Gen, tied to ebpfcat/ebpf.py by EXACT opcode-list equality "
+           "(incl. the scaled integers that reach imm), object trees with the root's `fixed` attribute, rejections and class "
+           "predicates on generated programs -- only as far as the generated programs reach",
+           "binary64 model Ebv.F64 (round-to-nearest-even with unbounded exponent; float(str), int/int and float*float of "
+           "CPython assumed correctly rounded): validated against CPython by a sweep every run, NOT proved against hardware",
+           "instruction semantics Ebv.Ebpf (validated three-way by C01), harness/vh/dsl_fixed.py, harness/vh/interp.py",
+           "FIXED_BASE regenerated from /repo into Ebv.Generated.Consts"]
+ASSUMPTIONS = ["decimal constants are decimal literals n/10^5 with |n| < 2^51 (arbitrary floats, NaN, infinities, subnormals: "
+               "outside); arithmetic between two Python numbers one of which is a float is CPython's, not ebpfcat's (not generated)",
+               "fit precondition of the oracle: every node of the tree the generator computes (after the store scaling) has a value "
+               "in the signed W-bit range, W = 32 if the destination or any leaf is at most 4 bytes wide, else 64; divisors non-zero; "
+               "statements in a program-level class of C01 (sum-minus, narrow-reg-in-64, ...) are counted, not judged (C01's findings)",
+               "comparisons: only the scaling rule of `comparison` (which side is multiplied); the branch code is C03's"]
+RULE = ("programs = JSON surface DSL with fixed typing (dsl_fixed.py): leaves x registers, x stack/array-map variables, decimal "
+        "constants (boundary set: decimals whose double product lies just below the decimal -- 0.29 0.57 0.58 1.13 1.15 ... --, "
+        "units, negatives, >= 2^31 scaled, 2^51-1), ints, r/sr/w/sw registers, variables of the 8 integer formats; operators "
+        "+ - * / // %; destinations x registers/variables, integer views and variables; random trees to depth 3, the depth-1 "
+        "family (operator x leaf kind x leaf kind x destination kind; sampled in the quick tier), targeted shapes (Sum objects "
+        "meeting fixed point, Binary + Sum, int/fixed, float // expr); a non-negative and a negative stream of constants and "
+        "inputs; mixed comparisons; float model: n/10^5 for |n| <= 2*10^6 (exhaustive in the thorough tier, |n| <= 6*10^4 plus "
+        "stride 37 in the quick tier), random windows below 2^51, random fractions; non-trivial = accepted with > 1 instruction")
+PROVED = [
+    "fx_typing / elabF_rep: induction over surface trees, all signs, over Z/Q -- every operator overload branch (direct, reflected, "
+    "Sum.__radd__ first, delegation of integer-only nodes to Gen) builds a tree whose C01 integer semantics is the exact rational "
+    "result dropped by floor, times 10^5 iff typed fixed (one factor per mixed node, FIXED_BASE^2 for int/fixed, Constant folding)",
+    "store scaling (storeVal_rep), x registers, x variables (as 8-byte signed memory operands)",
+    "evalBV_eq_evalZ_fx: unsigned DIV/MOD = // % for non-negative operands that fit the width; C02_ops_reg/mem from C01's "
+    "calc_correct; C02_partial in terms of Ebpf.run and the surface expression the user wrote",
+    "C02_const: decimals n/10^5, |n| < 2^51, are stored exactly (|fl(fl(d)*10^5) - n| <= 1/4) in the binary64 model; Python-side "
+    "set/get round trip",
+]
+CORRESPONDED_NOT_PROVED = [
+    "float // non-fixed expression (`__rfloordiv__` truncates the float with int() first): modelled (decTrunc) + corresponded + "
+    "oracle; excluded from the typing theorem by FExpr.ok (exact only for positive divisors)",
+    "`comparison` scaling rule (cmpScale): corresponded + order oracle on the real objects; no theorem (C03)",
+    "the Rat formulation decConstQ (normalised fractions between the roundings) = decConst: compared by the sweep, not proved; "
+    "roundToDouble's second branch (quotients >= 2^53) is only exercised by the random-fraction test",
+    "the fit precondition is stated on the built tree (divOk), not re-derived from the surface tree",
+]
+LEVEL_TEXT = ("Lean 4 proofs over hand-written models: (1) fx_typing by structural induction over surface expression trees (all "
+              "trees, all signs, Z/Q): the FIXED_BASE insertions of the operator overloads make C01's integer semantics of the "
+              "built tree equal the exact rational value dropped by floor; (2) C02_ops/C02_partial: C01's calc_correct plus a new "
+              "homomorphism lemma for the unsigned DIV/MOD give, for every program of the fragment outside the excluded classes and "
+              "every machine state satisfying the fit precondition, that the emitted code run by Ebpf.run leaves exactly that "
+              "integer in the destination; (3) C02_const: for all |n| < 2^51 the binary64 model of round(float(d)*100000) returns n "
+              "(error bound 1/4 for the two roundings); refutations of the full-strength statement and of each inherited class on "
+              "kernel-evaluated witnesses. Tie: exact opcode/tree/class equality of the real generator and the model every run; "
+              "oracle: real code in an independent interpreter against fractions.Fraction; float model swept against CPython.")
+LEVEL_NOTE = ("trusted: Lean kernel + propext/Classical.choice/Quot.sound; models <-> Python only as far as the generated programs "
+              "reach. Operations: proof (induction + C01's compiler correctness) for non-negative operands at the divisions. "
+              "Constants: proof MODULO the IEEE model -- Ebv.F64 is a hand-written rational model of binary64 round-to-nearest-even, "
+              "validated by a sweep against CPython every run, not proved against hardware; C02_const is stated on the unnormalised "
+              "fraction pipeline (decConst). Corresponded + oracle only: float // non-fixed, comparison scaling, decConstQ. Known "
+              "defect class of the unchanged tree (inherited from C01, refuted in Lean on witnesses): divmod-negative -- every "
+              "fixed*fixed, /, //, % and every integer store of a fixed value uses the unsigned DIV/MOD. Seen, outside the "
+              "property's fit precondition: a fixed value stored into a <= 32-bit destination is divided by FIXED_BASE in 32 bits "
+              "(x = 50000.0 -> I stores 7050; fixed_to_short_div32_refuted), counted as outside:fixed-to-short.")
+TECHNIQUE = "Lean 4 structural induction (typing + compiler correctness on top of C01) + error-bound proof for the float model + exact opcode-list correspondence"
 DESIGN_REF = "§4 C02"
